@@ -25,6 +25,7 @@ package main
 
 import (
 	"context"
+	"io"
 	"encoding/json"
 	"errors"
 	"fmt"
@@ -119,6 +120,46 @@ func subRawPeer(args []string) {
 			q.Close(errors.New("closed"))
 			time.Sleep(20 * time.Millisecond)
 		}
+		fmt.Println("DONE")
+		return
+	}
+	if sc == "stream-both-members-after-end" {
+		// STREAM API: an envelope whose request and response members both have the wrong type ends the link; the peer
+		// then sends a well-formed envelope with BOTH members, and the application cancels the link's context (as it is
+		// told to once Link has returned). The process survives.
+		reg := rpc.NewRegistry[rpRemote, json.RawMessage](rpLocal{}, nil)
+		ctx, cancel := context.WithCancel(context.Background())
+		pr, pw := io.Pipe()
+		dec := json.NewDecoder(pr)
+		done := make(chan error, 1)
+		go func() {
+			done <- reg.LinkStream(ctx,
+				func(m rpc.Message[json.RawMessage]) error { return nil },
+				func(m *rpc.Message[json.RawMessage]) error { return dec.Decode(m) },
+				func(v any) (json.RawMessage, error) { b, err := json.Marshal(v); return b, err },
+				func(data json.RawMessage, v any) error { return json.Unmarshal([]byte(data), v) }, nil)
+		}()
+		up := false
+		for i := 0; i < 3000 && !up; i++ {
+			reg.ForRemotes(func(id string, r rpRemote) error { up = true; return nil })
+			if !up {
+				time.Sleep(time.Millisecond)
+			}
+		}
+		go pw.Write([]byte(`{"request":5,"response":[true]}` + "\n"))
+		select {
+		case err := <-done:
+			if err == nil {
+				fmt.Println("BAD Link returned nil for an envelope whose members have the wrong types")
+			}
+		case <-time.After(2 * time.Second):
+			fmt.Println("BAD an envelope whose request and response members both have the wrong type did not end the link")
+		}
+		go pw.Write([]byte(`{"request":{"call":"a","function":"Say","args":["x"]},"response":{"call":"zz","value":null,"err":""}}` + "\n"))
+		time.Sleep(30 * time.Millisecond)
+		cancel()
+		time.Sleep(150 * time.Millisecond)
+		pw.Close()
 		fmt.Println("DONE")
 		return
 	}
@@ -517,12 +558,12 @@ func subRawPeer(args []string) {
 // runRawPeer runs the scenarios relevant to prop in child processes.
 func runRawPeer(rep *Report, prop string) {
 	rel := map[string][]string{
-		"C05": {"dup-responses", "bad-closure-id-spawned", "many-links-new-names"},
+		"C05": {"dup-responses", "bad-closure-id-spawned", "many-links-new-names", "stream-both-members-after-end"},
 		"C15": {"dup-responses", "nil-hooks-precancelled", "dup-responses-then-teardown"},
 		"C14": {"nil-hooks-precancelled", "dup-responses-then-teardown"},
 		"C09": {"bad-response-value", "value-for-error-only", "pipelined-big-args"},
 		"C08": {"pipelined-big-args"},
-		"C06": {"nil-hooks-precancelled", "bad-response-value", "bad-closure-id", "bad-closure-id-spawned", "pipelined-big-args", "many-links-new-names", "missing-args-after-valid"},
+		"C06": {"nil-hooks-precancelled", "bad-response-value", "bad-closure-id", "bad-closure-id-spawned", "pipelined-big-args", "many-links-new-names", "missing-args-after-valid", "stream-both-members-after-end"},
 		"C16": {"bad-closure-id", "error-response-write-fails", "bad-response-while-closure-runs", "bad-call-id-error-response"},
 		"C17": {"bad-closure-id", "value-for-error-only"},
 		"C03": {"error-response-write-fails", "bad-response-while-closure-runs", "bad-call-id-error-response"},
